@@ -202,6 +202,16 @@ func (u *Universe) heapKey(t types.Type) string {
 // []Identifier, Meta ↔ map[string]any) need no copying.
 func canonElem(t types.Type) types.Type {
 	t = types.Unalias(t)
+	if b, ok := t.(*types.Basic); ok {
+		// byte and rune are spelled differently but identical to uint8 and int32
+		switch b.Kind() {
+		case types.Uint8:
+			return types.Typ[types.Uint8]
+		case types.Int32:
+			return types.Typ[types.Int32]
+		}
+		return t
+	}
 	if n, ok := t.(*types.Named); ok {
 		switch n.Underlying().(type) {
 		case *types.Struct, *types.Interface:
@@ -249,7 +259,18 @@ func (u *Universe) tagOf(t types.Type) int {
 
 // canonTag: dynamic types are distinguished by their *named* identity, unlike
 // heaps; only aliases are removed.
-func canonTag(t types.Type) types.Type { return types.Unalias(t) }
+func canonTag(t types.Type) types.Type {
+	t = types.Unalias(t)
+	switch tt := t.(type) {
+	case *types.Basic:
+		return canonElem(t)
+	case *types.Slice:
+		return types.NewSlice(canonTag(tt.Elem()))
+	case *types.Pointer:
+		return types.NewPointer(canonTag(tt.Elem()))
+	}
+	return t
+}
 
 func (u *Universe) declareUninterp(name string, args []string, res string) {
 	if _, ok := u.uninterpN[name]; ok {
